@@ -646,6 +646,20 @@ funchlt(struct func *f)
 		b->jump.kind = JUMP_HLT;
 }
 
+/*
+The block in which a value that was just computed is available. If the
+current block has already been terminated (the operand called a _Noreturn
+function), continue in a new, unreachable block so that jumps and phis
+refer to a block that really is a predecessor.
+*/
+static struct block *
+funcend(struct func *f)
+{
+	if (f->end->jump.kind)
+		funclabel(f, mkblock("dead"));
+	return f->end;
+}
+
 struct gotolabel *
 funcgoto(struct func *f, char *name)
 {
@@ -814,6 +828,7 @@ funcexpr(struct func *f, struct expr *e)
 			b[0] = mkblock("logic_right");
 			b[1] = mkblock("logic_join");
 			t = e->u.binary.l->type;
+			funcend(f);
 			if (e->op == TLOR) {
 				funcjnz(f, l, t, b[1], b[0]);
 				b[1]->phi.val[0] = mkintconst(1);
@@ -825,7 +840,7 @@ funcexpr(struct func *f, struct expr *e)
 			funclabel(f, b[0]);
 			r = funcexpr(f, e->u.binary.r);
 			b[1]->phi.val[1] = convert(f, &typebool, e->u.binary.r->type, r);
-			b[1]->phi.blk[1] = f->end;
+			b[1]->phi.blk[1] = funcend(f);
 			funclabel(f, b[1]);
 			functemp(f, &b[1]->phi.res);
 			b[1]->phi.class = 'w';
@@ -912,16 +927,17 @@ funcexpr(struct func *f, struct expr *e)
 		b[2] = mkblock("cond_join");
 
 		v = funcexpr(f, e->base);
+		funcend(f);
 		funcjnz(f, v, e->base->type, b[0], b[1]);
 
 		funclabel(f, b[0]);
 		b[2]->phi.val[0] = funcexpr(f, e->u.cond.t);
-		b[2]->phi.blk[0] = f->end;
+		b[2]->phi.blk[0] = funcend(f);
 		funcjmp(f, b[2]);
 
 		funclabel(f, b[1]);
 		b[2]->phi.val[1] = funcexpr(f, e->u.cond.f);
-		b[2]->phi.blk[1] = f->end;
+		b[2]->phi.blk[1] = funcend(f);
 
 		funclabel(f, b[2]);
 		if (e->type == &typevoid)
